@@ -46,9 +46,11 @@ theorem no_ambient_sources : Tables.ambientSources = [] := rfl
 /-- at most one distinct ad-hoc import line is ever registered by the stub backend -/
 theorem adhoc_single : Tables.adhocImportLiterals.length ≤ 1 := by decide
 
-/-- the class-level `ImportTracker` is cleared at the start of every namespace module -/
+/-- the class-level `ImportTracker` is cleared at the start of every namespace module: the `clear()` is a statement of
+the method body and no statement before it contains a call (`first-call`), so nothing can register an import -- or
+raise -- between entering the method and the clear -/
 theorem tracker_cleared : Tables.importTrackerClearSites =
-    [("stone/backends/python_type_stubs.py", "PythonTypeStubsBackend._generate_base_namespace_module")] := rfl
+    [("stone/backends/python_type_stubs.py", "PythonTypeStubsBackend._generate_base_namespace_module", "first-call")] := rfl
 
 /-! ## Sorting -/
 
@@ -481,6 +483,17 @@ theorem tracker_history_free (cur₁ cur₂ : List String) (mods : List (List St
   cases mods with
   | nil => rfl
   | cons r rest => simp only [trackerRun, trackerStep, if_true, List.nil_append]
+
+/-- `clear()` moved to the end of the module is NOT equivalent: it is skipped when a build is aborted inside a module
+(any backend exception), and what that build registered leaks into the first module of the next build in the process.
+(`tracker_history_free` covers this situation for the clear-first form: its `cur₁` is arbitrary.) -/
+theorem tracker_late_clear_depends_on_aborted_build :
+    (trackerRunLate [] [(["List"], false), (["Text"], true)]).drop 1 ≠ trackerRunLate [] [(["Text"], true)] := by decide
+
+/-- as long as every module completes the late clear goes unnoticed -- which is why only a history with an aborted
+build can observe it -/
+theorem tracker_late_clear_unnoticed_without_abort :
+    (trackerRunLate [] [(["List"], true), (["Text"], true)]).drop 1 = trackerRunLate [] [(["Text"], true)] := by decide
 
 /-- without it the class-level tracker carries names over (from the previous module, or the previous run) -/
 theorem tracker_without_clear_depends_on_history :
